@@ -92,6 +92,47 @@ def run(ctx):
         ctx.check(em == er and len(em) >= 1, "C19.errors", op, "%s: same store error kinds in both backends (%s vs %s)" % (op, sorted(em), sorted(er)), key="C19.errors|" + op)
         ctx.check(rm == rr == want_ranges[op], "C19.ranges", op, "%s: same range updates in both backends %s" % (op, sorted(rm)), key="C19.ranges|" + op)
         ctx.check({w for w, _ in rr} == wr, "C19.redb.write-back", op, "%s: every range the redb backend changed is written back under its own key (%s)" % (op, sorted(wr)), key="C19.redb.write-back|" + op)
+    # remove_height: the per-height records are dropped on EVERY accepting path, in both backends
+    # (an effect that happens only under a condition in one backend is a divergence the set
+    # comparison above cannot see)
+    MEM_F = (("sampling_data", "sampling"), ("headers", "headers"), ("height_to_hash", "heights"))
+    RDB_T = (("SAMPLING_METADATA_TABLE", "sampling"), ("HEADERS_TABLE", "headers"), ("HEIGHTS_TABLE", "heights"))
+    for backend, bodies in (("mem", ops["remove_height"][0]), ("redb", ops["remove_height"][1])):
+        must = set()
+        seen = set()
+        for b in bodies:
+            if b is None:
+                continue
+            eff = {}
+            for blk in sorted(b.reachable_from([0])):
+                t = b.blocks[blk]["t"]
+                if t["k"] != "call" or "f" not in t or not t["args"]:
+                    continue
+                nm = t.get("rf") or t["f"]
+                if not nm.endswith(("::remove", "::remove_entry")) or nm.endswith("remove_relaxed"):
+                    continue
+                ls = ctx.leaves(call_expr(b, blk)[3][0])
+                lab = None
+                if backend == "mem":
+                    for f, n in MEM_F:
+                        if any(l == "a1." + f or l.startswith("a1." + f + ".") for l in ls):
+                            lab = n
+                            break
+                else:
+                    for k, n in RDB_T:
+                        if has_leaf(ls, "const:" + RB + k):
+                            lab = n
+                            break
+                if lab:
+                    eff.setdefault(lab, []).append(blk)
+            acc = [x["block"] for x in exit_sites(b) if x["kind"] == "accept"]
+            for lab, blks in eff.items():
+                seen.add(lab)
+                if acc and b.path_to([0], acc, (), set(blks)) is None:
+                    must.add(lab)
+        ctx.check(seen == {"sampling", "headers", "heights"}, "C19.remove.effects", "remove_height", "%s backend removes the header, the height index entry and the sampling metadata (%s)" % (backend, sorted(seen)), key="C19.remove.effects|" + backend)
+        for lab in sorted(seen):
+            ctx.check(lab in must, "C19.remove.unconditional", "remove_height", "%s backend: the %s record is removed on every accepting path" % (backend, lab), key="C19.remove.unconditional|%s|%s" % (backend, lab))
     # metadata merge with de-duplication
     for name, bodies in (("mem", ops["update_sampling_metadata"][0]), ("redb", ops["update_sampling_metadata"][1])):
         ok = False
